@@ -21,7 +21,7 @@ var launchForms = []string{
 var recForms = []string{
 	"none", "named", "lit", "litCapture", "nested", "helper", "method", "iface", "condRecover", "condDefer",
 	"deferRecoverBuiltin", "globalVar", "bound", "repanic", "noopDefer", "recoverNotDeferred", "namedArg",
-	"generic", "ptrMethod", "otherPkgLit",
+	"generic", "ptrMethod", "otherPkgLit", "ifaceNoop", "globalVarNoop", "boundNoop", "litNoop",
 }
 
 type progSpec struct {
@@ -126,6 +126,15 @@ func (g *progGen) recStmts(form string, p int, id string) []string {
 		return []string{"defer " + g.ref(p, q, "RecA") + "(1)"}
 	case "generic":
 		return []string{"defer " + g.ref(p, q, "RecG") + "[int]()"}
+	case "ifaceNoop":
+		// a deferred interface method that does NOT recover
+		return []string{"var nn" + id + " " + g.ref(p, q, "Nooper") + " = " + g.ref(p, q, "RT") + "{}", "defer nn" + id + ".Nop()"}
+	case "globalVarNoop":
+		return []string{"defer " + g.ref(p, q, "NoopV") + "()"}
+	case "boundNoop":
+		return []string{"n" + id + " := " + g.ref(p, q, "RT") + "{}.Nop", "defer n" + id + "()"}
+	case "litNoop":
+		return []string{"z" + id + " := 1", "defer func() {", "	_ = z" + id, "}()"}
 	case "otherPkgLit":
 		// a deferred literal that calls recover directly AND a helper
 		return []string{"defer func() {", "\t" + g.ref(p, q, "Noop") + "()", "\trecover()", "}()"}
@@ -180,9 +189,15 @@ func (RT) Rec() { recover() }
 
 func (*RT) RecP() { recover() }
 
+func (RT) Nop() {}
+
 type Recoverer interface{ Rec() }
 
+type Nooper interface{ Nop() }
+
 var RecV = Rec
+
+var NoopV = Noop
 
 type Runner interface{ Run() }
 `
